@@ -146,6 +146,16 @@ Theorem C42_block_timeout_unseen_wake_refutes :
     b_pc s = BDone BTimeout true at_ /\ b_done s = Some t /\ t < 0 + 10.
 Proof. exact late_check_window_exists. Qed.
 
+(* Liveness defect exhibited by the faithful model (recorded finding
+   C42-block-timeout-self-wake-deadlock; outside the C42 statement, which constrains what
+   is RETURNED): the waker does a blocking send into a one-slot channel, so a wake issued
+   from inside poll while a token is buffered blocks the polling thread for good - whatever
+   happens afterwards, block_timeout never returns and its duration is not honoured. *)
+Theorem C42_block_timeout_can_deadlock :
+  exists ops, b_pc (brun ops (binit 0 10 7)) = BStuck /\
+    forall more, b_pc (brun more (brun ops (binit 0 10 7))) = BStuck.
+Proof. exact block_timeout_can_deadlock. Qed.
+
 (* a completed future whose wake token is in the channel is returned by the thread's
    own next two steps, whatever the clock *)
 Theorem C42_block_timeout_completes : forall s lim,
@@ -210,6 +220,7 @@ Print Assumptions C42_block_on_returns_output.
 Print Assumptions C42_block_timeout_ok_is_output.
 Print Assumptions C42_block_timeout_only_late.
 Print Assumptions C42_block_timeout_unseen_wake_refutes.
+Print Assumptions C42_block_timeout_can_deadlock.
 Print Assumptions C42_block_timeout_completes.
 Print Assumptions C42_join_handshake.
 Print Assumptions C42_replay_steps_are_model_steps.
